@@ -124,6 +124,9 @@ func (its *WiredDatatype) calculatePullingOperations(newCheckPoint *model.CheckP
 
 func (its *WiredDatatype) checkOptionAndError(ppp *model.PushPullPack) errors.OrdaError {
 	if ppp.GetPushPullPackOption().HasErrorBit() {
+		if len(ppp.GetOperations()) == 0 {
+			return errors.ClientSync.New(its.L(), "error response without ErrorOperation")
+		}
 		modelOp := ppp.GetOperations()[0]
 		errOp, ok := operations.ModelToOperation(modelOp).(*operations.ErrorOperation)
 		if ok {
@@ -143,6 +146,9 @@ func (its *WiredDatatype) checkOptionAndError(ppp *model.PushPullPack) errors.Or
 		(its.state == model.StateOfDatatype_DUE_TO_SUBSCRIBE || its.state == model.StateOfDatatype_DUE_TO_SUBSCRIBE_CREATE) {
 		// only a datatype that is still waiting for its subscription is reset: a duplicated or delayed
 		// subscribe response must not wipe a subscribed replica and the operations it has not pushed yet.
+		if len(ppp.GetOperations()) == 0 {
+			return errors.DatatypeSubscribe.New(its.L(), "subscribe without SnapshotOp")
+		}
 		modelOp := ppp.GetOperations()[0]
 		_, ok := operations.ModelToOperation(modelOp).(*operations.SnapshotOperation)
 		if !ok {
